@@ -276,6 +276,9 @@ func parseFuncCall(step *Step, call *callFuncDef, funcs []*funcDef) error {
 	calledFuncDef := &funcDef{}
 
 	for _, funcDef := range funcs {
+		if funcDef == nil {
+			continue
+		}
 		if funcDef.Name == call.Function {
 			calledFuncDef = funcDef
 			break
